@@ -9,18 +9,18 @@ import (
 // Cfg is the receiver-side configuration of one parser object. Everything in
 // it is a knob the caller chooses; no property may depend on most of them.
 type Cfg struct {
-	Kind    string `json:"kind"`               // driver kind, see Kinds
-	Flags   uint   `json:"flags,omitempty"`    // msg: SkipBody|CLenReq bits; tokparam/uriparams/urihdrs: POptFlags (without InputEnd)
-	EOFFlag bool   `json:"eof_flag,omitempty"` // pass the documented end-of-input flag on the call made at EOF
-	HdrCap  int    `json:"hdr_cap"`            // -2: object never Init()ed, -1: nil (library default), >=0: caller array of that length
-	ConCap  int    `json:"con_cap"`            // same for the contact value array
-	ParCap  int    `json:"par_cap"`            // URI parameter / URI header array length
-	HType   int    `json:"htype,omitempty"`    // nameaddr: header kind passed to ParseNameAddrPVal
-	FlagsLate uint `json:"flags_late,omitempty"` // msg: from call number LateFrom on (counted per message) these flags are passed instead of Flags
-	LateFrom  int  `json:"late_from,omitempty"`  // 0 = the flags never change between the calls of one message
-	Frag    bool   `json:"frag,omitempty"`     // msg: this use of the object parses a bare header block (ParseHeaders on the message's own HL / PV, as for a sipfrag body) instead of a whole message
-	HBMask  uint8  `json:"hb_mask,omitempty"`  // hdrline/headers: a caller's own PHBodies whose getters return nil for these kinds (bit order: From To Call-ID CSeq Content-Length Contacts Expires PAIs)
-	NoHB    bool   `json:"no_hb,omitempty"`    // hdrline/headers: pass a nil PHBodies (generic value parsing only)
+	Kind      string `json:"kind"`                 // driver kind, see Kinds
+	Flags     uint   `json:"flags,omitempty"`      // msg: SkipBody|CLenReq bits; tokparam/uriparams/urihdrs: POptFlags (without InputEnd)
+	EOFFlag   bool   `json:"eof_flag,omitempty"`   // pass the documented end-of-input flag on the call made at EOF
+	HdrCap    int    `json:"hdr_cap"`              // -2: object never Init()ed, -1: nil (library default), >=0: caller array of that length
+	ConCap    int    `json:"con_cap"`              // same for the contact value array
+	ParCap    int    `json:"par_cap"`              // URI parameter / URI header array length
+	HType     int    `json:"htype,omitempty"`      // nameaddr: header kind passed to ParseNameAddrPVal
+	FlagsLate uint   `json:"flags_late,omitempty"` // msg: from call number LateFrom on (counted per message) these flags are passed instead of Flags
+	LateFrom  int    `json:"late_from,omitempty"`  // 0 = the flags never change between the calls of one message
+	Frag      bool   `json:"frag,omitempty"`       // msg: this use of the object parses a bare header block (ParseHeaders on the message's own HL / PV, as for a sipfrag body) instead of a whole message
+	HBMask    uint8  `json:"hb_mask,omitempty"`    // hdrline/headers: a caller's own PHBodies whose getters return nil for these kinds (bit order: From To Call-ID CSeq Content-Length Contacts Expires PAIs)
+	NoHB      bool   `json:"no_hb,omitempty"`      // hdrline/headers: pass a nil PHBodies (generic value parsing only)
 }
 
 // Kinds lists the 14 driver kinds (1 whole-message + 13 sub-parsers of C02);
@@ -645,7 +645,9 @@ func (d *URIParamsD) Reset(how int) {
 	}
 	d.vno = 0
 }
-func (d *URIParamsD) Continues(err sipsp.ErrorHdr) bool { return false }
+func (d *URIParamsD) Continues(err sipsp.ErrorHdr) bool {
+	return d.Accumulates() && err == sipsp.ErrHdrOk
+}
 
 type URIHdrsD struct {
 	cfg Cfg
@@ -965,16 +967,20 @@ func (d *URID) Reinit(c Cfg)        { d.Reset(ByInit) }
 
 // ---------------------------------------------------------------- Accumulates
 
-func (d *MsgD) Accumulates() bool        { return false }
-func (d *FLineD) Accumulates() bool      { return false }
-func (d *HdrLineD) Accumulates() bool    { return false }
-func (d *HeadersD) Accumulates() bool    { return false }
-func (d *NameAddrD) Accumulates() bool   { return false }
-func (d *CSeqD) Accumulates() bool       { return false }
-func (d *CallIDD) Accumulates() bool     { return false }
-func (d *UIntD) Accumulates() bool       { return false }
-func (d *TokParamD) Accumulates() bool   { return false }
-func (d *URIParamsD) Accumulates() bool  { return false }
+func (d *MsgD) Accumulates() bool      { return false }
+func (d *FLineD) Accumulates() bool    { return false }
+func (d *HdrLineD) Accumulates() bool  { return false }
+func (d *HeadersD) Accumulates() bool  { return false }
+func (d *NameAddrD) Accumulates() bool { return false }
+func (d *CSeqD) Accumulates() bool     { return false }
+func (d *CallIDD) Accumulates() bool   { return false }
+func (d *UIntD) Accumulates() bool     { return false }
+func (d *TokParamD) Accumulates() bool { return false }
+
+// with the blank terminator a text like "lr;ttl=1 user=phone" is collected by calling again on the same list
+func (d *URIParamsD) Accumulates() bool {
+	return d.cfg.Flags&uint(sipsp.POptTokSpTermF) != 0 && d.cfg.Flags&uint(sipsp.POptTokQmTermF|sipsp.POptTokCommaTermF) == 0
+}
 func (d *URIHdrsD) Accumulates() bool    { return false }
 func (d *SkipQuotedD) Accumulates() bool { return false }
 func (d *URID) Accumulates() bool        { return false }
